@@ -163,9 +163,78 @@ int main() {
     return Program(name, src, combos=["product-and-apply_product-order-small"], flavours=flavours)
 
 
+def product_shapes(name, seed, flavours):
+    """product<> / apply_product over lists of every shape - one to four lists of different
+    lengths, one-element lists, repeated types, and elements that are themselves type lists
+    (types<...>, types<>, template instantiations) - compared at compile time with the product
+    computed by the generator; plus use_definitions over a product whose second list holds a
+    composite element (a definition template that takes a list of tags as one argument)"""
+    rng = random.Random(seed)
+    plain = ["e%d" % i for i in range(8)]
+    decl = ["struct %s {};" % x for x in plain] + ["template<typename...> struct tp {};", "template<typename...> struct tq {};"]
+
+    def element():
+        k = rng.randrange(7)
+        if k <= 2:
+            return rng.choice(plain)
+        if k == 3:
+            return "types<%s>" % ", ".join(rng.choice(plain) for _ in range(rng.randint(0, 3)))
+        if k == 4:
+            return "tp<%s>" % ", ".join(rng.choice(plain) for _ in range(rng.randint(0, 2)))
+        if k == 5:
+            return "types<types<%s>, %s>" % (rng.choice(plain), rng.choice(plain))
+        return "types<>"
+    asserts = []
+    for _ in range(10):
+        nl = rng.randint(1, 4)
+        lists = [[element() for _ in range(rng.choice([1, 1, 2, 3, 4]))] for _ in range(nl)]
+        combos = [[]]
+        for l in lists:
+            combos = [c + [x] for c in combos for x in l]
+        expected = "types<%s>" % ", ".join("types<%s>" % ", ".join(c) for c in combos)
+        actual = "product<%s>" % ", ".join("types<%s>" % ", ".join(l) for l in lists)
+        asserts.append("static_assert(std::is_same_v<%s,\n    %s>, \"product of %d lists\");" % (actual, expected, nl))
+        if rng.random() < 0.5:
+            tl = rng.sample(["tp", "tq"], rng.randint(1, 2))
+            exp2 = "types<%s>" % ", ".join("%s<%s>" % (t, ", ".join(c)) for t in tl for c in combos)
+            act2 = "apply_product<templates<%s>, %s>" % (", ".join(tl), ", ".join("types<%s>" % ", ".join(l) for l in lists))
+            asserts.append("static_assert(std::is_same_v<%s,\n    %s>, \"apply_product\");" % (act2, exp2))
+    # use_definitions with a composite element in the second (and third) list
+    ncls = rng.randint(2, 5)
+    L = decl + asserts
+    L.append("struct Root { virtual ~Root() {} };")
+    for i in range(ncls):
+        L.append("struct K%d : Root { static constexpr int index = %d; };" % (i, i))
+    L.append("use_classes<Root, %s> YOMM2_GENSYM;" % ", ".join("K%d" % i for i in range(ncls)))
+    L.append("struct KEY; using M = method<KEY, int(virtual_<Root&>)>;")
+    L.append("struct bold {}; struct italic {}; struct wide {};")
+    L.append("template<typename...> struct definition : not_defined {};")
+    third = rng.random() < 0.5
+    defined = [i for i in range(ncls) if rng.random() < 0.7] or [0]
+    L.append("constexpr bool WANTED[%d] = {%s};" % (ncls, ", ".join("true" if i in defined else "false" for i in range(ncls))))
+    L.append("struct impl_base {};")
+    if third:
+        L.append("template<typename T, typename... Tags, typename Last> struct definition<M, T, types<Tags...>, Last> : std::conditional_t<WANTED[T::index], impl_base, not_defined> { static int fn(T&) { return 10 * T::index + (int)sizeof...(Tags); } };")
+        L.append("use_definitions<definition, product<types<M>, types<%s>, types<types<bold, italic>>, types<types<wide>>>> YOMM2_GENSYM;" % ", ".join("K%d" % i for i in range(ncls)))
+    else:
+        L.append("template<typename T, typename... Tags> struct definition<M, T, types<Tags...>> : std::conditional_t<WANTED[T::index], impl_base, not_defined> { static int fn(T&) { return 10 * T::index + (int)sizeof...(Tags); } };")
+        L.append("use_definitions<definition, product<types<M>, types<%s>, types<types<bold, italic>>>> YOMM2_GENSYM;" % ", ".join("K%d" % i for i in range(ncls)))
+    main = ["int main() {", "    update();"]
+    main.append('    CHECK((long)M::fn.specs.size() == %d, "C20:composite-element:wrong-number-of-definitions", "%%ld definitions registered, %d combinations are defined", (long)M::fn.specs.size());' % (len(defined), len(defined)))
+    for i in defined:
+        main.append('    { K%d o; int r = -1; try { r = M::fn(o); } catch (...) {} CHECK(r == %d, "C20:composite-element:defined-combination-not-registered", "class K%d: result %%d", r); }' % (i, 10 * i + 2, i))
+    main.append('    CHECK(true, "C20:product-order", "%d compile-time comparisons passed");' % len(asserts))
+    combo = "product-shapes/composite-elements/classes=%d/third-list=%d" % (ncls, third)
+    main.append('    printf("VFB-COMBO %s\\n");' % combo)
+    src = PRELUDE + "\n".join(L) + "\n\n" + "\n".join(main) + EPILOGUE + "}\n"
+    return Program(name, src, combos=[combo], flavours=flavours)
+
+
 def programs(tier, seed):
     rng = random.Random(seed)
     out = [small_extras("c20-s%d-order" % seed, ["clang-asan"])]
+    for k in range(2 if tier == "quick" else 10):
+        out.append(product_shapes("c20-s%d-shapes%d" % (seed, k), seed * 53 + k, ["clang-asan"] if k % 2 == 0 else ["gcc-dbg"]))
     fl = ["clang-asan"]
     specs = []
     # small: 1-3 lists of length 1-8, every not_defined pattern
